@@ -128,8 +128,8 @@ func ChildMain(sims map[string]SimFunc) bool {
 			finish(2)
 		}
 		out.Samples = [][]string{c.Lines}
-		if c.V != nil {
-			out.Found = []Found{{Sig: c.V.Sig(), V: *c.V, Sim: sp.Sim, Tier: sp.Tier, Tape: c.Rec, Log: c.Lines, LogFP: fmt.Sprintf("%016x", c.Fingerprint()), Count: 1}}
+		for _, v := range c.All() {
+			out.Found = append(out.Found, Found{Sig: v.Sig(), V: *v, Sim: sp.Sim, Tier: sp.Tier, Tape: c.Rec, Log: c.Lines, LogFP: fmt.Sprintf("%016x", c.Fingerprint()), Count: 1})
 		}
 		finish(0)
 	}
@@ -143,6 +143,9 @@ func ChildMain(sims map[string]SimFunc) bool {
 				sig = "BUG " + c.Bug
 			} else if c.V != nil {
 				sig = c.V.Sig()
+			}
+			for _, v := range c.Softs {
+				sig += " +" + v.Sig()
 			}
 			lines = append(lines, fmt.Sprintf("%d %016x %d %s\n", run, c.Fingerprint(), len(c.Rec), sig)...)
 			out.Runs++
@@ -194,38 +197,38 @@ func ChildMain(sims map[string]SimFunc) bool {
 			}
 			out.Samples = append(out.Samples, append([]string{fmt.Sprintf("run=%d tape_seed=%d", run, tseed)}, l...))
 		}
-		if c.V == nil {
-			continue
-		}
-		sig := c.V.Sig()
-		if i, ok := seen[sig]; ok {
-			out.Found[i].Count++
-			continue
-		}
-		if len(out.Found) >= 6 {
-			continue
-		}
-		// minimise in-process: the run is a pure function of the tape
-		n := 0
-		shrinkEnd := time.Now().Add(20 * time.Second)
-		expired := false
-		min := Shrink(c.Rec, func(v []uint32) bool {
-			n++
-			if expired || (n&7 == 0 && time.Now().After(shrinkEnd)) {
-				expired = true
-				return false
+		for _, viol := range c.All() {
+			sig := viol.Sig()
+			if i, ok := seen[sig]; ok {
+				out.Found[i].Count++
+				continue
 			}
-			r := RunOne(f, ReplayTape(v), sp.Tier, false)
-			return r.Bug == "" && r.V != nil && r.V.Sig() == sig
-		}, sp.MaxShrink)
-		r := RunOne(f, ReplayTape(min), sp.Tier, true)
-		if r.V == nil || r.V.Sig() != sig {
-			out.Bug = fmt.Sprintf("run %d: minimised tape does not reproduce %s (nondeterministic simulation)", run, sig)
-			finish(2)
+			if len(out.Found) >= 6 {
+				continue
+			}
+			// minimise in-process: the run is a pure function of the tape
+			n := 0
+			shrinkEnd := time.Now().Add(20 * time.Second)
+			expired := false
+			min := Shrink(c.Rec, func(v []uint32) bool {
+				n++
+				if expired || (n&7 == 0 && time.Now().After(shrinkEnd)) {
+					expired = true
+					return false
+				}
+				r := RunOne(f, ReplayTape(v), sp.Tier, false)
+				return r.Bug == "" && r.Has(sig) != nil
+			}, sp.MaxShrink)
+			r := RunOne(f, ReplayTape(min), sp.Tier, true)
+			rv := r.Has(sig)
+			if rv == nil {
+				out.Bug = fmt.Sprintf("run %d: minimised tape does not reproduce %s (nondeterministic simulation)", run, sig)
+				finish(2)
+			}
+			seen[sig] = len(out.Found)
+			out.Found = append(out.Found, Found{Sig: sig, V: *rv, Seed: sp.Seed, Run: run, Sim: sp.Sim, Tier: sp.Tier, Race: sp.Race,
+				OrigLen: len(c.Rec), Tape: min, Log: r.Lines, LogFP: fmt.Sprintf("%016x", r.Fingerprint()), Count: 1, Shrinks: n})
 		}
-		seen[sig] = len(out.Found)
-		out.Found = append(out.Found, Found{Sig: sig, V: *r.V, Seed: sp.Seed, Run: run, Sim: sp.Sim, Tier: sp.Tier, Race: sp.Race,
-			OrigLen: len(c.Rec), Tape: min, Log: r.Lines, LogFP: fmt.Sprintf("%016x", r.Fingerprint()), Count: 1, Shrinks: n})
 		deadline = deadline.Add(0) // shrinking counts against the budget
 	}
 	if err := writeSet(sp.Out+".fp", fps); err != nil {
